@@ -4,7 +4,7 @@ from __future__ import annotations
 
 import importlib
 
-CONTRACT_MODULES = ["contracts.curves", "contracts.groups", "contracts.closed", "contracts.fields", "contracts.ints", "contracts.purity", "contracts.hashing", "contracts.codec", "contracts.ecdsa"]
+CONTRACT_MODULES = ["contracts.curves", "contracts.groups", "contracts.closed", "contracts.fields", "contracts.ints", "contracts.purity", "contracts.hashing", "contracts.codec", "contracts.ecdsa", "contracts.bls"]
 
 _COMMON_TRUST = [
     "CPython semantics as modelled in DESIGN.md section 3 (mathematical ints, bytes as octet sequences, static name resolution, no monkey-patching)",
@@ -86,6 +86,39 @@ PROPS = {
         text="deterministic_generate_k is proved equal to the RFC 6979 section 3.2 first candidate over an uninterpreted HMAC; ecdsa_raw_sign is proved to return r = x(k.G), s = +-k^-1(z + r d) mod N with 1 <= s <= N/2, v in {27,28} and v - 27 = parity(y_R) xor [s flipped]; the property-level lemma (polyid in Z/N) then gives: recover returns d.G, the other v gives another key, and the verification equation holds.",
         note="All of this is under the ghost precondition good(k), listed as an assumption.",
         design_ref="DESIGN.md section 8 C06"),
+    "C04": dict(level="proof", trusted=_COMMON_TRUST, assumptions=["A-PAIRING: the optimized ate pairing is bilinear and non-degenerate on G2 x G1 (assumed theorem; what is proved is that the suites call it only on valid subgroup points and how its values are combined)",
+                     "contract of hash_to_G2: a function of (message, tag) landing in the prime-order subgroup (C10 over A-ORDER)",
+                     "codec contracts (C11) and subgroup_check exactness (C17) are used at the call sites",
+                     "A-PRIME: r prime"],
+        text="KeyValidate, Verify, AggregateVerify (three suites), FastAggregateVerify and PopVerify are executed symbolically from the real source for ARBITRARY byte strings of ANY length and key/message lists of ANY length (loop invariants over the list index): every path ends in a boolean (no exception escapes: each raise is inside a try whose handler tuple contains its class, and every callee's raises clause is covered), True implies every key is the canonical 48-byte encoding of a non-identity subgroup point and the signature the canonical 96-byte encoding of a subgroup point, and at each of the five pairing call sites both arguments are proved valid and in the prime-order subgroup.",
+        note="Over the contracts of the decoders (C11), subgroup_check (C17), hash_to_G2 (C10). The pairing itself is not executed here.",
+        design_ref="DESIGN.md section 8 C04"),
+    "C02": dict(level="proof", trusted=_COMMON_TRUST, assumptions=["A-PAIRING: the optimized ate pairing is bilinear and non-degenerate on G2 x G1 (assumed theorem; what is proved is that the suites call it only on valid subgroup points and how its values are combined)",
+                     "contract of hash_to_G2: a function of (message, tag) landing in the prime-order subgroup (C10 over A-ORDER)",
+                     "codec contracts (C11) and subgroup_check exactness (C17) are used at the call sites",
+                     "A-PRIME: r prime"] + ["A-HASH for the cross-tag clause: H(m, DST1) != H(m, DST2) is a random-oracle fact; proved instead: each suite uses its own pinned tag and message encoding on both sides, and the four tags are pairwise different"],
+        text="Verify/PopVerify are proved to return True iff key and signature are canonical subgroup encodings and dl(S) = dl(H(m', tag)) dl(P) mod r for this suite's (m', tag); Sign/PopProve/SkToPk are proved to output enc(sk . H(m', tag)) resp. enc(sk . G1); the property-level lemma (z3, L-CYCLIC from Lean) then gives Verify(SkToPk(sk), m, c) <=> c == Sign(sk, m) byte for byte.",
+        note="Relative to A-PAIRING; exponent arithmetic is done by polyid in the field Z/r.",
+        design_ref="DESIGN.md section 8 C02"),
+    "C01": dict(level="proof", trusted=_COMMON_TRUST, assumptions=["A-PAIRING: the optimized ate pairing is bilinear and non-degenerate on G2 x G1 (assumed theorem; what is proved is that the suites call it only on valid subgroup points and how its values are combined)",
+                     "contract of hash_to_G2: a function of (message, tag) landing in the prime-order subgroup (C10 over A-ORDER)",
+                     "codec contracts (C11) and subgroup_check exactness (C17) are used at the call sites",
+                     "A-PRIME: r prime"] + ["A-HASH: KeyGen's rejection loop terminates"],
+        text="The => direction of the C02 lemma (honest signatures and possession proofs verify, all three suites); SkToPk/Sign/PopProve raise ValidationError exactly for non-integers and integers outside [1, r-1]; KeyGen returns a key in [1, r-1] (loop invariant, C16).",
+        note="bool is a subclass of int (SkToPk(True) is sk = 1); 'non-integer' is read as 'not an instance of int'.",
+        design_ref="DESIGN.md section 8 C01"),
+    "C03": dict(level="proof", trusted=_COMMON_TRUST, assumptions=["A-PAIRING: the optimized ate pairing is bilinear and non-degenerate on G2 x G1 (assumed theorem; what is proved is that the suites call it only on valid subgroup points and how its values are combined)",
+                     "contract of hash_to_G2: a function of (message, tag) landing in the prime-order subgroup (C10 over A-ORDER)",
+                     "codec contracts (C11) and subgroup_check exactness (C17) are used at the call sites",
+                     "A-PRIME: r prime"],
+        text="Aggregate is proved (loop invariant over a list of symbolic length) to return the compressed fold of (+) over the decoded signatures and to raise exactly for an empty list or an entry that is not a 96-byte decodable string; the three AggregateVerify front ends and FastAggregateVerify are proved to return True iff the suite preconditions hold (>= 1 signer, as many keys as messages, every key valid, distinct messages in the basic suite) and dl(S) = sum_i dl(H(m'_i)) dl(P_i) mod r (pairing-product accumulator invariant, polyid in Z/r).",
+        note="Known finding K1 (aggregate public key = identity in FastAggregateVerify) is excluded and re-executed concretely on every run.",
+        design_ref="DESIGN.md section 8 C03"),
+    "C09": dict(level="proof", trusted=_COMMON_TRUST, assumptions=["the spec functions enc1/enc2 are the ZCash encodings of C11; hash_to_G2 is the RFC 9380 suite of C10",
+                     "the draft texts are not available offline: the four tags are pinned literals in the contract; SkToPk(1) = compressed generator 97f1d3a7...c6bb is the anchor for G1 (eval)"],
+        text="SkToPk, Sign (three suites, with the key prefix in the augmentation suite), PopProve and Aggregate are proved to output exactly enc1(sk.G1), enc2(sk.H(m', tag)), enc2(sk.H(PK, POP tag)) and enc2(sum) with sha256 as XMD hash; the tag literals equal the draft-v4 strings pinned in the contract.",
+        note="Definitional proof over the contracts of the encoders and hash_to_G2.",
+        design_ref="DESIGN.md section 8 C09"),
     "C17": dict(level="proof", trusted=_COMMON_TRUST, assumptions=[
         "A-ORDER: #E(F_p) = h1 r (forced by Hasse + r prime, eval) and #E'(F_p2) = h2 r (assumed; Hasse-interval cross-check by eval)",
         "A-STRUCT-G1: the cofactor part of E(F_p) has exponent dividing 1 - x (RFC 9380 section 8.8.1); needed only for 'clear_cofactor_G1 lands in the subgroup'",
